@@ -256,7 +256,7 @@ Section Squash.
 
   Lemma sq_ok_dur e : sq_ok e -> start <= dur e.
   Proof.
-    induction e as [dl l|m cs IH|m cs IH] using ev_ind'; intros H.
+    clear Hnew d. induction e as [dl l|m cs IH|m cs IH] using ev_ind'; intros H.
     - destruct H.
     - exact H.
     - rewrite sq_ok_sim in H. destruct H as [Hne Hok]. rewrite dur_sim.
@@ -401,3 +401,79 @@ Qed.
 
 Theorem squash_in_leaf e start new : is_leaf e = true -> squash_in e start new = Err EAttributeError.
 Proof. destruct e; [reflexivity|discriminate|discriminate]. Qed.
+
+(* ---------------------------------------------------------------- examples *)
+(* counterexamples to the per-voice statement with only `is_leaf c = false /\ start <= dur c` as hypothesis:
+   an empty Concurrence rejects start > 0, a leaf below a nested Concurrence is still rejected,
+   and below a nested Concurrence the content of `new` is seen through the nesting (SN [SL 9], not SL 9) *)
+Example squash_counterexamples :
+  squash_in (Sim meta0 []) 1 (Leaf 2 9) = Err EInvalidStartValue /\
+  squash_in (Sim meta0 [Sim meta0 [Leaf 5 1]]) 1 (Leaf 2 9) = Err EImpossibleToSquashIn /\
+  squash_in (Sim meta0 [Sim meta0 [Seq meta0 [Leaf 5 1]; Seq meta0 []]]) 1 (Leaf 2 9) = Err EInvalidStartValue /\
+  squash_in (Sim meta0 [Sim meta0 [Seq meta0 [Leaf 5 1]]]) 0 (Leaf 2 9) = Ok (Sim meta0 [Sim meta0 [Seq meta0 [Leaf 2 9; Leaf 3 1]]]) /\
+  at_ (Sim meta0 [Seq meta0 [Leaf 2 9; Leaf 3 1]]) 0 = Some (SN [SL 9]) /\ at_ (Leaf 2 9) 0 = Some (SL 9) /\
+  (* an empty nested Concurrence is accepted at 0 but keeps duration 0 *)
+  squash_in (Sim meta0 [Sim meta0 []]) 0 (Leaf 2 9) = Ok (Sim meta0 [Sim meta0 []]).
+Proof. vm_compute. repeat split; reflexivity. Qed.
+
+Definition squash_ex : ev :=
+  Sim meta0 [Seq meta0 [Leaf 10 1; Sim meta0 [Leaf 5 2; Seq meta0 [Leaf 3 3; Leaf 4 4]]; Leaf 0 5; Leaf 6 6];
+             Sim (mkMeta 7 0) [Seq meta0 [Leaf 30 7]; Seq meta0 [Leaf 12 8; Leaf 12 9]]].
+Definition squash_new : ev := Seq (mkMeta 3 0) [Leaf 2 10; Leaf 1 11].
+
+Example squash_example_hyps : wf squash_ex /\ wf squash_new /\ dur squash_ex = 30 /\
+  sq_ok 12 squash_ex /\ sq_ok 23 squash_ex /\ ~ sq_ok 24 squash_ex.
+Proof.
+  split; [apply wfb_wf; vm_compute; reflexivity|]. split; [apply wfb_wf; vm_compute; reflexivity|].
+  split; [vm_compute; reflexivity|]. simpl.
+  repeat split; try congruence; try lia.
+Qed.
+
+(* first voice: the nested Concurrence under 12 is cut ([12,15) removed) and split at 12;
+   second voice (itself a Concurrence): both inner sequences receive the new event *)
+Example squash_example :
+  squash_in squash_ex 12 squash_new =
+    Ok (Sim meta0
+         [Seq meta0 [Leaf 10 1; Sim meta0 [Leaf 2 2; Seq meta0 [Leaf 2 3]]; squash_new;
+                     Sim meta0 [Seq meta0 [Leaf 2 4]]; Leaf 0 5; Leaf 6 6];
+          Sim (mkMeta 7 0) [Seq meta0 [Leaf 12 7; squash_new; Leaf 15 7];
+                            Seq meta0 [Leaf 12 8; squash_new; Leaf 9 9]]]) /\
+  (* at the end of the shorter voice: appended there, squashed into the longer ones *)
+  squash_in squash_ex 23 squash_new =
+    Ok (Sim meta0
+         [Seq meta0 [Leaf 10 1; Sim meta0 [Leaf 5 2; Seq meta0 [Leaf 3 3; Leaf 4 4]]; Leaf 0 5; Leaf 6 6; squash_new];
+          Sim (mkMeta 7 0) [Seq meta0 [Leaf 23 7; squash_new; Leaf 4 7];
+                            Seq meta0 [Leaf 12 8; Leaf 11 9; squash_new]]]) /\
+  (* zero-length new event: the child under 12 is split, nothing is removed *)
+  squash_in squash_ex 12 (Leaf 0 10) =
+    Ok (Sim meta0
+         [Seq meta0 [Leaf 10 1; Sim meta0 [Leaf 2 2; Seq meta0 [Leaf 2 3]]; Leaf 0 10;
+                     Sim meta0 [Leaf 3 2; Seq meta0 [Leaf 1 3; Leaf 4 4]]; Leaf 0 5; Leaf 6 6];
+          Sim (mkMeta 7 0) [Seq meta0 [Leaf 12 7; Leaf 0 10; Leaf 18 7];
+                            Seq meta0 [Leaf 12 8; Leaf 0 10; Leaf 12 9]]]) /\
+  squash_in squash_ex 24 squash_new = Err EInvalidStartValue /\
+  squash_in squash_ex 31 squash_new = Err EInvalidStartValue /\
+  squash_in squash_ex (-1) squash_new = Err EInvalidAbsoluteTime /\
+  squash_in (Sim meta0 [Seq meta0 [Leaf 4 1]; Leaf 4 2]) 2 squash_new = Err EImpossibleToSquashIn.
+Proof. vm_compute. repeat split; reflexivity. Qed.
+
+(* the theorem instantiated on the example *)
+Example squash_example_spec : exists e', squash_in squash_ex 12 squash_new = Ok e' /\
+  dur e' = 30 /\ wf e' /\ at_ e' 11 = at_ squash_ex 11 /\ at_ e' 15 = at_ squash_ex 15 /\
+  at_ e' 13 = Some (SN [SL 10; SN [SL 10; SL 10]]).
+Proof.
+  destruct squash_example_hyps as (Hw & Hn & _ & Hok & _).
+  destruct (squash_in_spec squash_new 12 Hn ltac:(lia) squash_ex Hw Hok) as (e' & E & D & W & _ & A).
+  exists e'. split; [exact E|]. split; [rewrite D; vm_compute; reflexivity|]. split; [exact W|].
+  rewrite !A. vm_compute. repeat split; reflexivity.
+Qed.
+
+Print Assumptions seq_squash_spec.
+Print Assumptions seq_squash_new_at_start.
+Print Assumptions squash_in_seq.
+Print Assumptions squash_in_spec.
+Print Assumptions squash_in_sim_spec.
+Print Assumptions squash_in_sim_seq_voices.
+Print Assumptions squash_in_negative.
+Print Assumptions squash_in_beyond.
+Print Assumptions squash_in_leaf_voice.
